@@ -110,10 +110,10 @@ def step_counts(m, b, fields, memo, depth=0):
     return out
 
 
-def s07_step_once(ctx):
+def s07_step_once(ctx, only_types=None, rule_id='S07'):
     f = ctx.facts('default')
     m = Model(f)
-    r = RuleResult('S07', 'every stateful component (field that is a Method or a Window) of every method / indicator instance is stepped '
+    r = RuleResult(rule_id, 'every stateful component (field that is a Method or a Window) of every method / indicator instance is stepped '
                           'exactly once on every path of next()')
     method_types = m.types_implementing(T_METHOD)
     nfields = 0
@@ -125,6 +125,8 @@ def s07_step_once(ctx):
             if adt is None:
                 continue
             short = m.short(i)
+            if only_types and short not in only_types:
+                continue
             fields = _stateful_fields(m, adt, method_types)
             if not fields:
                 continue
@@ -159,8 +161,8 @@ def s07_step_once(ctx):
                     r.violate(key + '|stepped-%d-times' % max(counts), 'component %s is stepped %s times on some path of next()' % (key, sorted(counts)), b.file, b.line)
                 else:
                     r.violate(key + '|conditionally-stepped', 'component %s is stepped on some paths of next() and skipped on others (%s)' % (key, sorted(counts)), b.file, b.line)
-    r.floor('next functions with stateful components', 60, nfn)
-    r.floor('stateful fields', 150, nfields)
+    r.floor('next functions with stateful components', 60 if not only_types else len(only_types), nfn)
+    r.floor('stateful fields', 150 if not only_types else len(only_types), nfields)
     r.info.update({'fields': nfields, 'functions': nfn, 'exceptions_used': sorted(used_exc),
-                   'stale_exceptions': sorted(set(STEP_EXCEPTIONS) - used_exc)})
+                   'stale_exceptions': sorted(set(STEP_EXCEPTIONS) - used_exc) if not only_types else []})
     return r
